@@ -76,6 +76,9 @@ def z_labelled(fn: ast.AST) -> List[ast.AST]:
             out.append(n)
         if isinstance(n, ast.Call) and call_attr(n) == "strftime" and n.args and isinstance(n.args[0], ast.Constant) and isinstance(n.args[0].value, str) and n.args[0].value.endswith("Z"):
             out.append(n)
+        parts = joined_parts(n) if isinstance(n, (ast.Call, ast.BinOp)) else None  # '{}Z'.format(t), '%sZ' % (t,), ''.join((t, 'Z'))
+        if parts and isinstance(parts[-1], ast.Constant) and isinstance(parts[-1].value, str) and parts[-1].value.endswith("Z") and any(not isinstance(x, ast.Constant) for x in parts) and n not in out:
+            out.append(n)
     return out
 
 
@@ -107,7 +110,7 @@ def all_params(fn: ast.AST) -> Set[str]:
     return out
 
 
-def bind_args(call: ast.Call, fn: ast.AST) -> Dict[str, ast.AST]:
+def bind_args(call: ast.Call, fn: ast.AST, scope: Optional[ast.AST] = None) -> Dict[str, ast.AST]:
     """Parameter name -> argument expression of *call* for callee *fn* (receiver skipped)."""
     out: Dict[str, ast.AST] = {}
     pp = pos_params(fn)
@@ -119,6 +122,13 @@ def bind_args(call: ast.Call, fn: ast.AST) -> Dict[str, ast.AST]:
     for kw in call.keywords:
         if kw.arg:
             out[kw.arg] = kw.value
+        elif scope is not None:
+            # `f(**common)`: the entries of a mapping assembled in *scope* (one value per entry) are keyword arguments
+            for q in all_params(fn):
+                if q not in out:
+                    vals = dict_values(scope, kw.value, q)
+                    if vals and len(vals) == 1:
+                        out[q] = vals[0]
     return out
 
 
@@ -228,6 +238,8 @@ def alpha(e: ast.AST) -> ast.AST:
     """Comprehension variables renamed to _k0, _k1, ... so that texts compare independent of their spelling."""
     e = clone(e)
     n = 0
+    for c in [c for c in ast.walk(e) if isinstance(c, ast.Call) and isinstance(c.func, ast.Name) and c.func.id in ("any", "all") and len(c.args) == 1 and not c.keywords and isinstance(c.args[0], ast.ListComp)]:
+        c.args[0] = ast.copy_location(ast.GeneratorExp(elt=c.args[0].elt, generators=c.args[0].generators), c.args[0])  # same truth value
     for comp in [c for c in ast.walk(e) if isinstance(c, (ast.ListComp, ast.SetComp, ast.GeneratorExp, ast.DictComp))]:
         for gen in comp.generators:
             for t in [x for x in ast.walk(gen.target) if isinstance(x, ast.Name)]:
@@ -318,6 +330,16 @@ def kterm(e: ast.AST, atom: Callable[[ast.AST], Optional[str]]) -> tuple:
         last = e.values[1]
         if (isinstance(last, (ast.List, ast.Tuple, ast.Set)) and not last.elts) or (isinstance(last, ast.Dict) and not last.keys) or (isinstance(last, ast.Call) and isinstance(last.func, ast.Name) and last.func.id in ("list", "set", "tuple", "dict") and not last.args):
             return kterm(e.values[0], atom)
+    if isinstance(e, ast.IfExp):
+        # `x if x else []`, `x if x is not None else []`, `[] if not x else x`, `[] if x is None else x`: the keys of x
+        t, neg = e.test, False
+        if isinstance(t, ast.UnaryOp) and isinstance(t.op, ast.Not):
+            t, neg = t.operand, True
+        elif isinstance(t, ast.Compare) and len(t.ops) == 1 and isinstance(t.ops[0], (ast.Is, ast.IsNot)) and is_const(t.comparators[0], None):
+            t, neg = t.left, isinstance(t.ops[0], ast.Is)
+        full, empty = (e.orelse, e.body) if neg else (e.body, e.orelse)
+        if _empty_container(empty) and ast.unparse(t) == ast.unparse(full):
+            return kterm(full, atom)
     if isinstance(e, (ast.List, ast.Tuple)) and e.elts and all(isinstance(x, ast.Starred) for x in e.elts):
         return _flat("or", [kterm(x.value, atom) for x in e.elts])
     if isinstance(e, (ast.ListComp, ast.SetComp, ast.GeneratorExp)) and len(e.generators) == 1:
@@ -367,11 +389,30 @@ def name_atoms(mapping: Dict[str, str]) -> Callable[[ast.AST], Optional[str]]:
 
 
 def dict_entry(d: ast.AST, key: str) -> Optional[ast.AST]:
+    """The value a display gives *key* (the last entry wins; entries of a display spread into it, `**{..}`, count as its
+    own).  None when the display has no such entry or a later spread of an unknown mapping may replace it."""
+    found: Optional[ast.AST] = None
     if isinstance(d, ast.Dict):
         for k, v in zip(d.keys, d.values):
             if isinstance(k, ast.Constant) and k.value == key:
-                return v
-    return None
+                found = v
+            elif k is None and isinstance(v, ast.Dict):
+                inner = dict_entry(v, key)
+                found = inner if inner is not None else found
+    return found
+
+
+def call_kwarg(fn: ast.AST, call: ast.Call, name: str) -> Optional[ast.AST]:
+    """The expression *call* (in *fn*) passes for keyword *name*: written at the call, or the entry *name* of a mapping
+    spread into it (`f(**fields)`, the mapping understood by dict_values).  None when absent or not a single value."""
+    v = kwarg(call, name)
+    if v is not None:
+        return v
+    found: List[ast.AST] = []
+    for kw in call.keywords:
+        if kw.arg is None:
+            found += dict_values(fn, expand(fn, kw.value), name) or []
+    return found[0] if len(found) == 1 else None
 
 
 def joined_parts(e: ast.AST) -> Optional[List[ast.AST]]:
@@ -392,13 +433,14 @@ def joined_parts(e: ast.AST) -> Optional[List[ast.AST]]:
                 if i:
                     pieces.append(e.args[i - 1])
                 pieces.append(ast.Constant(value=chunk))
-    if isinstance(e, ast.BinOp) and isinstance(e.op, ast.Mod) and isinstance(e.left, ast.Constant) and isinstance(e.left.value, str) and isinstance(e.right, ast.Tuple):
+    if isinstance(e, ast.BinOp) and isinstance(e.op, ast.Mod) and isinstance(e.left, ast.Constant) and isinstance(e.left.value, str) and not isinstance(e.right, (ast.Dict, ast.List)):
         text = e.left.value
-        if text.count("%s") == len(e.right.elts) and text.replace("%s", "").count("%") == 0:
+        operands = e.right.elts if isinstance(e.right, ast.Tuple) else [e.right]
+        if text.count("%s") == len(operands) and text.replace("%s", "").count("%") == 0 and not any(isinstance(x, ast.Starred) for x in operands):
             pieces = []
             for i, chunk in enumerate(text.split("%s")):
                 if i:
-                    pieces.append(e.right.elts[i - 1])
+                    pieces.append(operands[i - 1])
                 pieces.append(ast.Constant(value=chunk))
     if pieces is None:
         return None
@@ -482,6 +524,273 @@ def plain_traversal(fn: ast.AST) -> ast.AST:
     return new
 
 
+def _empty_container(e: Optional[ast.AST]) -> bool:
+    return (isinstance(e, (ast.List, ast.Tuple, ast.Set)) and not e.elts) or (isinstance(e, ast.Dict) and not e.keys) or (isinstance(e, ast.Call) and isinstance(e.func, ast.Name) and e.func.id in ("list", "set", "tuple", "dict", "frozenset") and not e.args and not e.keywords)
+
+
+def _reads_name(e: ast.AST, name: str) -> bool:
+    return any(isinstance(x, ast.Name) and x.id == name for x in ast.walk(e))
+
+
+def _update_items(call: ast.Call) -> Optional[List[Tuple[Optional[ast.AST], ast.AST]]]:
+    """(key, value) pairs of `X.update({'k': v, ..})` / `X.update(k=v, ..)` / `X.update(other)` (key None: the whole of
+    *other* is merged in), in the order the entries are stored; None for any other shape."""
+    if not (isinstance(call.func, ast.Attribute) and call.func.attr == "update" and len(call.args) <= 1 and all(k.arg for k in call.keywords)):
+        return None
+    items: List[Tuple[Optional[ast.AST], ast.AST]] = []
+    if call.args:
+        a = call.args[0]
+        if isinstance(a, ast.Starred):
+            return None
+        if isinstance(a, ast.Dict):
+            items += [(k, v) for k, v in zip(a.keys, a.values)]
+        elif isinstance(a, ast.Call) and isinstance(a.func, ast.Name) and a.func.id == "dict" and not a.args and all(k.arg for k in a.keywords):
+            items += [(ast.Constant(value=k.arg), k.value) for k in a.keywords]
+        else:
+            items.append((None, a))
+    items += [(ast.Constant(value=k.arg), k.value) for k in call.keywords]
+    return items or None
+
+
+def plain_statements(fn: ast.AST) -> ast.AST:
+    """A copy of *fn* in which some statement-level spellings of one computation are written one way (what is
+    evaluated, in which order, and what is stored where stays the same):
+
+      records  `d = dict(a=x)` is the display `{'a': x}`; `d.update({'a': x}, b=y)` on a plain local is `d['a'] = x;
+               d['b'] = y` (values that do not read d); a display bound to a local and directly followed by `d['k'] = v`
+               / `d.update(other)` statements is one display `{.., 'k': v, **other}` (the successive stores of the
+               assembly of a record: same keys, values and order);
+      loops    inside a `for` body `if c: continue` followed by statements is `if not c: <statements>`; a local bound
+               once in the function, in a loop body, to a side-effect free expression and read only by the following
+               statements of that body (nothing in between rebinding or changing what the expression reads) is replaced
+               by the expression - so that an accumulate loop with named intermediate values is the loop the normaliser
+               turns into a comprehension."""
+    from ..normal import _purity
+
+    new = clone(fn)
+    _attach_parents(new)
+    changed = False
+    shadow = {n.id for n in ast.walk(new) if isinstance(n, ast.Name) and isinstance(n.ctx, ast.Store)} | all_params(new)
+
+    def blocks(root: ast.AST):
+        for node in ast.walk(root):
+            if isinstance(node, (ast.Lambda,)):
+                continue
+            for field in ("body", "orelse", "finalbody"):
+                block = getattr(node, field, None)
+                if isinstance(block, list) and block and isinstance(block[0], ast.stmt):
+                    yield node, block
+
+    # dict(k=v) -> display
+    if "dict" not in shadow:
+        for n in [n for n in ast.walk(new) if isinstance(n, ast.Call) and isinstance(n.func, ast.Name) and n.func.id == "dict" and not n.args and all(k.arg for k in n.keywords)]:
+            d = ast.copy_location(ast.Dict(keys=[ast.copy_location(ast.Constant(value=k.arg), k.value) for k in n.keywords], values=[k.value for k in n.keywords]), n)
+            p = parent(n)
+            for f, val in ast.iter_fields(p):
+                if val is n:
+                    setattr(p, f, d)
+                    changed = True
+                elif isinstance(val, list) and any(x is n for x in val):
+                    val[:] = [d if x is n else x for x in val]
+                    changed = True
+        _attach_parents(new)
+    # X.update(<literal entries>) on a plain local -> successive stores
+    for _node, block in list(blocks(new)):
+        i = 0
+        while i < len(block):
+            st = block[i]
+            if isinstance(st, ast.Expr) and isinstance(st.value, ast.Call) and isinstance(st.value.func, ast.Attribute) and isinstance(st.value.func.value, ast.Name):
+                x = st.value.func.value.id
+                items = _update_items(st.value)
+                if items and all(k is not None for k, _v in items) and not any(_reads_name(v, x) or _reads_name(k, x) for k, v in items):
+                    repl = [ast.copy_location(ast.Assign(targets=[ast.copy_location(ast.Subscript(value=ast.copy_location(ast.Name(id=x, ctx=ast.Load()), st), slice=k, ctx=ast.Store()), st)], value=v), st) for k, v in items]
+                    block[i:i + 1] = repl
+                    changed = True
+                    i += len(repl)
+                    continue
+            i += 1
+    # a fresh list sorted in place right after it is bound -> sorted(..)
+    for _node, block in list(blocks(new)):
+        for i in range(len(block) - 1):
+            st, nx = block[i], block[i + 1]
+            tgt = st.targets[0] if isinstance(st, ast.Assign) and len(st.targets) == 1 else st.target if isinstance(st, ast.AnnAssign) and st.value is not None else None
+            fresh = isinstance(tgt, ast.Name) and (isinstance(st.value, (ast.List, ast.ListComp)) or (isinstance(st.value, ast.Call) and isinstance(st.value.func, ast.Name) and st.value.func.id in ("list", "sorted") and "list" not in shadow))
+            if fresh and isinstance(nx, ast.Expr) and isinstance(nx.value, ast.Call) and isinstance(nx.value.func, ast.Attribute) and nx.value.func.attr == "sort" and isinstance(nx.value.func.value, ast.Name) and nx.value.func.value.id == tgt.id \
+                    and not nx.value.args and not any(_reads_name(k.value, tgt.id) for k in nx.value.keywords) and "sorted" not in shadow:
+                st.value = ast.copy_location(ast.Call(func=ast.copy_location(ast.Name(id="sorted", ctx=ast.Load()), st.value), args=[st.value], keywords=nx.value.keywords), st.value)
+                block[i + 1] = ast.copy_location(ast.Pass(), nx)
+                changed = True
+    for _node, block in list(blocks(new)):
+        if len(block) > 1 and any(isinstance(x, ast.Pass) for x in block):
+            block[:] = [x for x in block if not isinstance(x, ast.Pass)] or [block[0]]
+    # a display followed by the stores that complete it -> one display
+    for _node, block in list(blocks(new)):
+        i = 0
+        while i + 1 < len(block):
+            st, nx = block[i], block[i + 1]
+            tgt = st.targets[0] if isinstance(st, ast.Assign) and len(st.targets) == 1 else st.target if isinstance(st, ast.AnnAssign) and st.value is not None else None
+            if not (isinstance(tgt, ast.Name) and isinstance(st.value, ast.Dict)):
+                i += 1
+                continue
+            x, d = tgt.id, st.value
+            if isinstance(nx, ast.Assign) and len(nx.targets) == 1 and isinstance(nx.targets[0], ast.Subscript) and isinstance(nx.targets[0].value, ast.Name) and nx.targets[0].value.id == x \
+                    and isinstance(nx.targets[0].slice, ast.Constant) and not _reads_name(nx.value, x):
+                # a key stored again replaces the earlier entry in place (a display keeps the position of the first)
+                d.keys.append(nx.targets[0].slice)
+                d.values.append(nx.value)
+                del block[i + 1]
+                changed = True
+                continue
+            if isinstance(nx, ast.Expr) and isinstance(nx.value, ast.Call) and isinstance(nx.value.func, ast.Attribute) and isinstance(nx.value.func.value, ast.Name) and nx.value.func.value.id == x:
+                items = _update_items(nx.value)
+                if items and len(items) == 1 and items[0][0] is None and not _reads_name(items[0][1], x):
+                    d.keys.append(None)
+                    d.values.append(items[0][1])
+                    del block[i + 1]
+                    changed = True
+                    continue
+            i += 1
+    # loop bodies: guard-continue, named intermediate values
+    _attach_parents(new)
+    n_stores: Dict[str, int] = {}
+    for n in ast.walk(new):
+        if isinstance(n, ast.Name) and isinstance(n.ctx, (ast.Store, ast.Del)):
+            n_stores[n.id] = n_stores.get(n.id, 0) + 1
+    nested = {x.id for f in ast.walk(new) if isinstance(f, FuncNode + (ast.Lambda,)) and f is not new for x in ast.walk(f) if isinstance(x, ast.Name)}
+
+    def in_loop(block_owner: ast.AST) -> bool:
+        cur: Optional[ast.AST] = block_owner
+        while cur is not None and cur is not new:
+            if isinstance(cur, ast.For):
+                return True
+            if not isinstance(cur, ast.If):
+                return False
+            cur = parent(cur)
+        return False
+
+    again = True
+    rounds = 0
+    while again and rounds < 40:
+        again = False
+        rounds += 1
+        for owner, block in list(blocks(new)):
+            if not in_loop(owner):
+                continue
+            if isinstance(owner, ast.For) and block is not owner.body:
+                continue
+            for i, st in enumerate(block):
+                if isinstance(st, ast.If) and not st.orelse and len(st.body) == 1 and isinstance(st.body[0], ast.Continue) and i + 1 < len(block):
+                    t = st.test
+                    st.test = t.operand if isinstance(t, ast.UnaryOp) and isinstance(t.op, ast.Not) else ast.copy_location(ast.UnaryOp(op=ast.Not(), operand=t), t)
+                    st.body = block[i + 1:]
+                    del block[i + 1:]
+                    again = changed = True
+                    break
+                tgt = st.targets[0] if isinstance(st, ast.Assign) and len(st.targets) == 1 else st.target if isinstance(st, ast.AnnAssign) and st.value is not None else None
+                if not isinstance(tgt, ast.Name) or n_stores.get(tgt.id, 0) != 1 or tgt.id in nested or tgt.id in all_params(new):
+                    continue
+                v, rhs = tgt.id, st.value
+                if _purity(rhs) not in ("safe", "pure") or _reads_name(rhs, v):
+                    continue
+                later = block[i + 1:]
+                uses = [x for x in ast.walk(new) if isinstance(x, ast.Name) and x.id == v and isinstance(x.ctx, ast.Load)]
+                later_ids = {id(x) for s in later for x in ast.walk(s)}
+                if not uses or not all(id(u) in later_ids for u in uses):
+                    continue
+                # the uses sit in the following statements, under `if`s only (same iteration, same exception region)
+                ok = True
+                for u in uses:
+                    p = parent(u)
+                    while p is not None and not any(p is s for s in later):
+                        if isinstance(p, ast.stmt) and not isinstance(p, (ast.If, ast.Assign, ast.AnnAssign, ast.Expr, ast.Return, ast.AugAssign)):
+                            ok = False
+                        if isinstance(p, (ast.Lambda, ast.ListComp, ast.SetComp, ast.DictComp, ast.GeneratorExp)):
+                            ok = False
+                        p = parent(p)
+                    if p is not None and not isinstance(p, (ast.If, ast.Assign, ast.AnnAssign, ast.Expr, ast.Return, ast.AugAssign)):
+                        ok = False
+                free = {x.id for x in ast.walk(rhs) if isinstance(x, ast.Name)}
+                for s in later:
+                    for x in ast.walk(s):
+                        if isinstance(x, ast.Name) and isinstance(x.ctx, (ast.Store, ast.Del)) and x.id in free:
+                            ok = False
+                        if isinstance(x, (ast.Subscript, ast.Attribute)) and isinstance(x.ctx, (ast.Store, ast.Del)) and _root_name(x.value) in free:
+                            ok = False
+                        if isinstance(x, ast.Call) and isinstance(x.func, ast.Attribute) and x.func.attr in _MUT and _root_name(x.func.value) in free:
+                            ok = False
+                if not ok:
+                    continue
+
+                class S(ast.NodeTransformer):
+                    def visit_Name(self, n: ast.Name):
+                        return clone(rhs) if n.id == v and isinstance(n.ctx, ast.Load) else n
+
+                for k, s in enumerate(later):
+                    block[i + 1 + k] = S().visit(s)
+                del block[i]
+                n_stores[v] = 0
+                _attach_parents(new)
+                again = changed = True
+                break
+            if again:
+                break
+    if not changed:
+        return fn
+    ast.fix_missing_locations(new)
+    _attach_parents(new)
+    new._parent = parent(fn)  # type: ignore[attr-defined]
+    if hasattr(fn, "_normal_of"):
+        new._normal_of = fn._normal_of  # type: ignore[attr-defined]
+    return new
+
+
+def lookup_canon(e: ast.AST, present: Set[Tuple[str, str]] = frozenset()) -> ast.AST:
+    """*e* with the spellings of one mapping look-up written one way.  Without knowledge about the key:
+    `M[K] if K in M else D` / `D if K not in M else M[K]` is `M.get(K, D)` and `M.get(K, None)` is `M.get(K)`.  For a
+    pair (text of M, text of K) in *present* (the key is known to be in the mapping where *e* is evaluated) every one
+    of them, and `M.get(K)` / `M.get(K, D)`, is `M[K]`."""
+
+    def is_sub(x: ast.AST, m: str, k: str) -> bool:
+        return isinstance(x, ast.Subscript) and ast.unparse(x.value) == m and ast.unparse(x.slice) == k
+
+    class L(ast.NodeTransformer):
+        def visit_IfExp(self, n: ast.IfExp):
+            self.generic_visit(n)
+            t = n.test
+            neg = False
+            if isinstance(t, ast.UnaryOp) and isinstance(t.op, ast.Not):
+                t, neg = t.operand, True
+            if isinstance(t, ast.Compare) and len(t.ops) == 1 and isinstance(t.ops[0], (ast.In, ast.NotIn)):
+                if isinstance(t.ops[0], ast.NotIn):
+                    neg = not neg
+                k = ast.unparse(t.left)
+                mexp = t.comparators[0]
+                if isinstance(mexp, ast.Call) and isinstance(mexp.func, ast.Attribute) and mexp.func.attr == "keys" and not mexp.args:
+                    mexp = mexp.func.value
+                m = ast.unparse(mexp)
+                hit, miss = (n.orelse, n.body) if neg else (n.body, n.orelse)
+                if (m, k) in present:
+                    return hit
+                if is_sub(hit, m, k):
+                    args = [clone(t.left)] + ([] if is_const(miss, None) else [miss])
+                    return ast.copy_location(ast.Call(func=ast.Attribute(value=clone(mexp), attr="get", ctx=ast.Load()), args=args, keywords=[]), n)
+            return n
+
+        def visit_Call(self, n: ast.Call):
+            self.generic_visit(n)
+            if isinstance(n.func, ast.Attribute) and n.func.attr == "get" and 1 <= len(n.args) <= 2 and not n.keywords and not any(isinstance(a, ast.Starred) for a in n.args):
+                m, k = ast.unparse(n.func.value), ast.unparse(n.args[0])
+                if (m, k) in present:
+                    return ast.copy_location(ast.Subscript(value=n.func.value, slice=n.args[0], ctx=ast.Load()), n)
+                if len(n.args) == 2 and is_const(n.args[1], None):
+                    n.args = n.args[:1]
+            return n
+
+    out = L().visit(clone(e))
+    ast.fix_missing_locations(out)
+    return out
+
+
 def every_of(fn: ast.AST, e: Optional[ast.AST]) -> List[ast.AST]:
     """The expressions *e* can name: *e* itself, or (for a local bound more than once) every expression bound to it."""
     if e is None:
@@ -509,9 +818,20 @@ def dict_values(fn: ast.AST, e: Optional[ast.AST], key: str, _seen: Optional[Set
     if e is None:
         return None
     if isinstance(e, ast.Dict):
-        if any(k is None or not isinstance(k, ast.Constant) for k in e.keys):
-            return None
-        return [v for k, v in zip(e.keys, e.values) if k.value == key][-1:]
+        cur: List[ast.AST] = []
+        for k, v in zip(e.keys, e.values):
+            if k is None:
+                # `**other`: an entry of *other* replaces what the display has so far (when *other* has one on every path -
+                # not known here, so both stay candidates); a mapping that is not understood may hold anything
+                inner = dict_values(fn, v, key, seen)
+                if inner is None:
+                    return None
+                cur = cur + inner
+            elif not isinstance(k, ast.Constant):
+                return None
+            elif k.value == key:
+                cur = [v]
+        return cur
     if isinstance(e, ast.Call) and isinstance(e.func, ast.Name) and e.func.id == "dict" and not e.args and all(k.arg for k in e.keywords):
         return [k.value for k in e.keywords if k.arg == key]
     if isinstance(e, ast.IfExp):
@@ -541,7 +861,20 @@ def dict_values(fn: ast.AST, e: Optional[ast.AST], key: str, _seen: Optional[Set
                 else:
                     return None
             if isinstance(n, ast.Call) and isinstance(n.func, ast.Attribute) and n.func.attr in _MUT and _root_name(n.func.value) == e.id:
-                return None
+                # `local.update({'k': v}, k2=v2)` / `local.update(<understood mapping>)` are stores under constant keys
+                items = _update_items(n) if isinstance(n.func.value, ast.Name) and isinstance(parent(n), ast.Expr) else None
+                if items is None:
+                    return None
+                for k, v in items:
+                    if k is None:
+                        inner = dict_values(fn, v, key, seen)
+                        if inner is None:
+                            return None
+                        out.extend(inner)
+                    elif not isinstance(k, ast.Constant):
+                        return None
+                    elif k.value == key:
+                        out.append(v)
             if isinstance(n, ast.AugAssign) and _root_name(n.target) == e.id:
                 return None
         return out
@@ -658,6 +991,8 @@ def z_shape_problem(fn: ast.AST, z: ast.AST) -> Optional[str]:
         texts = [z.left]
     elif isinstance(z, ast.JoinedStr):
         texts = [v.value for v in z.values if isinstance(v, ast.FormattedValue)]
+    elif joined_parts(z) is not None:
+        texts = [x for x in joined_parts(z) if not isinstance(x, ast.Constant)]
     for t in texts:
         iso = _iso_call(expand(fn, t))
         if iso is None:
@@ -1189,10 +1524,23 @@ _CHECK_CODES = {"pre_checks": "required_keys_present", "post_checks": "context_w
 _SUMMARY_KEYS = {"init_summaries": "input_data", "augment_summaries": "output_data"}
 
 
-def _stores_key(fn: ast.AST, key: str) -> List[ast.AST]:
-    """The values *fn* puts under the constant mapping key *key* (subscript store or display entry)."""
-    out: List[ast.AST] = [s.value for s in ast.walk(fn) if isinstance(s, ast.Assign) and any(isinstance(t, ast.Subscript) and is_const(t.slice, key) for t in s.targets)]
-    out += [v for d in ast.walk(fn) if isinstance(d, ast.Dict) for k, v in zip(d.keys, d.values) if is_const(k, key)]
+def _stores_key(fn: ast.AST, key: str, nested: bool = True) -> List[ast.AST]:
+    """The values *fn* puts under the constant mapping key *key*, however the mapping is assembled: entry of a display,
+    `m[key] = v`, `dict(key=v)`, `m.update({key: v})` / `m.update(key=v)`, `m.setdefault(key, v)`."""
+    out: List[ast.AST] = []
+    for s in (ast.walk(fn) if nested else walk_no_nested(fn)):
+        if isinstance(s, ast.Assign) and any(isinstance(t, ast.Subscript) and is_const(t.slice, key) for t in s.targets):
+            out.append(s.value)
+        elif isinstance(s, ast.Assign) and len(s.targets) == 1 and isinstance(s.targets[0], (ast.Tuple, ast.List)) and isinstance(s.value, (ast.Tuple, ast.List)) and len(s.value.elts) == len(s.targets[0].elts):
+            out += [v for t, v in zip(s.targets[0].elts, s.value.elts) if isinstance(t, ast.Subscript) and is_const(t.slice, key)]
+        elif isinstance(s, ast.Dict):
+            out += [v for k, v in zip(s.keys, s.values) if is_const(k, key)]
+        elif isinstance(s, ast.Call) and isinstance(s.func, ast.Name) and s.func.id == "dict":
+            out += [k.value for k in s.keywords if k.arg == key]
+        elif isinstance(s, ast.Call) and isinstance(s.func, ast.Attribute) and s.func.attr == "update":
+            out += [k.value for k in s.keywords if k.arg == key]  # a display / dict(..) argument is found on its own
+        elif isinstance(s, ast.Call) and isinstance(s.func, ast.Attribute) and s.func.attr == "setdefault" and len(s.args) == 2 and is_const(s.args[0], key):
+            out.append(s.args[1])
     return out
 
 
@@ -1272,7 +1620,7 @@ class Roles:
         keep = tuple(opts.pop("keep", ())) + self.keep()
         key = (id(fn), keep, tuple(sorted(opts.items())))
         if key not in self._nf:
-            self._nf[key] = normalize(self.repo, self.mod(role), plain_traversal(fn), keep=keep, **opts)
+            self._nf[key] = normalize(self.repo, self.mod(role), plain_statements(plain_traversal(fn)), keep=keep, **opts)
         return self._nf[key]
 
     def is_call(self, c: ast.AST, role: str) -> bool:
@@ -1336,15 +1684,15 @@ class Roles:
         if not ser:
             raise AnalysisError(f"{self.qn('record')}: the SERRecord(...) construction is not in the function's normal form")
         self.ser_call = ser[0]
-        self.proc = expand(mk, kwarg(ser[0], "processor"))
+        self.proc = expand(mk, call_kwarg(mk, ser[0], "processor"))
         self.p_par = dotted_name(dict_entry(self.proc, "parameters"))
         self.p_src = dotted_name(dict_entry(self.proc, "parameter_sources"))
-        t = expand(mk, kwarg(ser[0], "timing"))
+        t = expand(mk, call_kwarg(mk, ser[0], "timing"))
         self.p_timing = t.id if isinstance(t, ast.Name) and t.id in all_params(mk) else None
         # the parameter/source resolver: its result pair is what the record builder receives as parameters / sources
         found = []
         for c in self.record_calls:
-            b = bind_args(c, mk)
+            b = bind_args(c, mk, ex)
             for pname in (self.p_par, self.p_src):
                 for call, _i in self._from_unpack(b.get(pname) if pname else None):
                     t2 = self.callee(omod, call)
@@ -1355,7 +1703,7 @@ class Roles:
         for role, key in (("start_timing", "started_at"), ("end_timing", "finished_at")):
             found = []
             for c in self.record_calls:
-                for v in dict_values(ex, bind_args(c, mk).get(self.p_timing) if self.p_timing else None, key) or []:
+                for v in dict_values(ex, bind_args(c, mk, ex).get(self.p_timing) if self.p_timing else None, key) or []:
                     for call, _i in self._from_unpack(v):
                         t2 = self.callee(omod, call)
                         if t2 is not None:
@@ -1363,7 +1711,7 @@ class Roles:
             self._set(role, found, f"yields timing.{key}", required=False)
         # built-in check builders and summary builders, by the record entries they produce
         for role, code in _CHECK_CODES.items():
-            self._set(role, [(m, f) for _c, m, f in direct if writes(m, f, lambda g, code=code: any(isinstance(d, ast.Dict) and is_const(dict_entry(d, "code"), code) for d in ast.walk(g)))], f"builds the check `{code}`")
+            self._set(role, [(m, f) for _c, m, f in direct if writes(m, f, lambda g, code=code: any(is_const(v, code) for v in _stores_key(g, "code")))], f"builds the check `{code}`")
         for role, key in _SUMMARY_KEYS.items():
             self._set(role, [(m, f) for _c, m, f in direct if f is not self.fn("record") and writes(m, f, lambda g, key=key: bool(_stores_key(g, key)))], f"stores summaries[{key!r}]")
         # inside the check builders: the type-check entry (receives the code of the check) and the delta-list reader
@@ -1543,7 +1891,7 @@ def run(repo: Repo, R: Report) -> None:
     def timing_entry_ok(c: ast.Call, key: str, role: str, pos: int, exclusive: bool) -> bool:
         """Entry *key* of the timing mapping handed to the record builder (a display or a local naming one) is,
         whenever present, element *pos* of the result of the timing helper in *role*."""
-        vals = dict_values(ex, bind_args(c, mk).get(A.p_timing) if A.p_timing else None, key)
+        vals = dict_values(ex, bind_args(c, mk, ex).get(A.p_timing) if A.p_timing else None, key)
         return bool(vals) and all(unpack_of(v, role, pos, exclusive) for v in vals)
 
     def status_of(c: ast.Call) -> str:
@@ -1565,12 +1913,19 @@ def run(repo: Repo, R: Report) -> None:
             ok = ok and bool(vals) and all(isinstance(v, ast.Call) and call_attr(v) in producers for v in vals)
         R.check(ok, r_utc, A.rel(role), A.qn(role), f"{helper}() iso element comes from a UTC producer", "SER started_at/finished_at is not produced by the UTC timestamp helper", f.lineno)
     for qn in ("JsonlTraceDriver.on_pipeline_start", "JsonlTraceDriver.on_pipeline_end", "JsonlTraceDriver.on_run_space_start", "JsonlTraceDriver.on_run_space_end"):
-        f = repo.func(JSONL, qn)
-        ts = [v for n in walk_no_nested(f) if isinstance(n, ast.Dict) for k, v in zip(n.keys, n.values) if isinstance(k, ast.Constant) and k.value == "timestamp"]
-        ts += [n.value for n in walk_no_nested(f) if isinstance(n, ast.Assign) and any(isinstance(t, ast.Subscript) and is_const(t.slice, "timestamp") for t in n.targets)]
-        ts += [k.value for c in calls_in(f) if call_name(c) == "dict" for k in c.keywords if k.arg == "timestamp"]
-        vals = [x for v in ts for x in every_of(f, expand(f, v))]
-        ok = bool(ts) and len(vals) >= len(ts) and all(isinstance(v, ast.Call) and call_attr(v) in producers for v in vals)
+        raw = repo.func(JSONL, qn)
+        jmod = repo.module(JSONL)
+        # the record may be assembled in helpers of the driver: they are looked at in the method's normal form (inlined),
+        # the ones that cannot be inlined where they are (every function of the module the method reaches)
+        f = normalize(repo, jmod, plain_statements(raw), keep=tuple(sorted(producers)), deep=True)
+        inlined = set(getattr(f, "_inlined", []) or [])
+        scopes = [f] + [h for _m, h in A.region(jmod, raw) if h is not raw and h.name not in inlined and h.name not in producers]
+        vals, n_ts = [], 0
+        for sc in scopes:
+            ts = _stores_key(sc, "timestamp", nested=False)
+            n_ts += len(ts)
+            vals += [x for v in ts for x in every_of(sc, expand(sc, v))]
+        ok = n_ts > 0 and len(vals) >= n_ts and all(isinstance(v, ast.Call) and call_attr(v) in producers for v in vals)
         R.check(ok, r_utc, JSONL, qn, "record.timestamp from the UTC producer", "lifecycle record timestamp is not produced by the UTC timestamp helper", f.lineno)
 
     # ------------------------------------------------------------------ roles in execute()
@@ -1757,7 +2112,8 @@ def run(repo: Repo, R: Report) -> None:
             covers = lp is not None and f"{NODE_P}.processor" in getter_owners(repo, rp, lp.iter)
             R.check(covers, r_prov, RREL, RPQ, "context label [domain]", "the context step does not range over all processing parameter names: a defaulted parameter overridden by context is never labelled `context` (and is missing from processor.parameters)", s.lineno)
             reads = {f"{CTX_P}[{K}]", f"{CTX_P}.get({K})"}
-            ok = bool(vstores) and all(any(ast.unparse(x) in reads for x in ast.walk(expand(rp, v.value))) for v in vstores)
+            known = {(CTX_P, K)} if any(c in a_ctx for c in conds) else set()  # the key is in the view here: every look-up spelling is the entry
+            ok = bool(vstores) and all(any(ast.unparse(x) in reads for x in ast.walk(lookup_canon(expand(rp, v.value), known))) for v in vstores)
             R.check(ok, r_prov, RREL, RPQ, "context value = <pre-node view>[k]", "the value recorded for a context-sourced parameter is not read from the pre-node context", s.lineno)
         if lab == "default":
             if any(reads_declared_table(x) for v in vstores for x in closure(rp, v.value)):
@@ -1775,7 +2131,7 @@ def run(repo: Repo, R: Report) -> None:
     for c in A.record_calls:
         ok = bool(p_par) and bool(p_src) and p_par in all_params(mk) and p_src in all_params(mk)
         for pname, pos in ((p_par, 0), (p_src, 1)):
-            v = bind_args(c, mk).get(pname) if pname else None
+            v = bind_args(c, mk, ex).get(pname) if pname else None
             ok = ok and unpack_of(v, "resolve", pos)
         R.check(ok, r_prov, ORCH, EXECUTE, f"SER ({status_of(c)}): processor.parameters / parameter_sources = the resolved (values, sources) pair", "processor.parameters / parameter_sources are not the (values, sources) pair reconstructed for this node", c.lineno)
 
@@ -1795,7 +2151,7 @@ def run(repo: Repo, R: Report) -> None:
     def pass_iff_empty(fn: ast.AST, code: str) -> Optional[ast.AST]:
         """The expression M such that result is 'PASS' exactly when M is empty (None when the shape is different)."""
         d = check_dict(fn, code)
-        res = expand(fn, dict_entry(d, "result")) if d is not None else None
+        res = expand(fn, dict_entry(expand(fn, d), "result")) if d is not None else None
         if not isinstance(res, ast.IfExp) or not (isinstance(res.body, ast.Constant) and isinstance(res.orelse, ast.Constant)):
             return None
         t, a, b = res.test, res.body.value, res.orelse.value
@@ -1804,6 +2160,9 @@ def run(repo: Repo, R: Report) -> None:
             t, neg = t.operand, True
         elif isinstance(t, ast.Compare) and len(t.ops) == 1 and isinstance(t.ops[0], (ast.Eq, ast.NotEq, ast.Gt)) and isinstance(t.left, ast.Call) and call_name(t.left) == "len" and len(t.left.args) == 1 and is_const(t.comparators[0], 0):
             t, neg = t.left.args[0], isinstance(t.ops[0], ast.Eq)
+        elif isinstance(t, ast.Compare) and len(t.ops) == 1 and isinstance(t.ops[0], (ast.Eq, ast.NotEq)) and _empty_container(t.comparators[0]) and (isinstance(t.comparators[0], ast.List) or call_name(t.comparators[0]) == "list") \
+                and (isinstance(expand(fn, t.left), (ast.List, ast.ListComp)) or (isinstance(expand(fn, t.left), ast.Call) and call_name(expand(fn, t.left)) in ("list", "sorted"))):
+            t, neg = t.left, isinstance(t.ops[0], ast.Eq)  # `m == []` of a list m: m is empty
         if isinstance(t, ast.Call) and call_name(t) == "bool" and len(t.args) == 1:
             t = t.args[0]
         if (neg and (a, b) == ("PASS", "FAIL")) or (not neg and (a, b) == ("FAIL", "PASS")):
@@ -1973,6 +2332,11 @@ def run(repo: Repo, R: Report) -> None:
                     differs.add(f"not {f.name}({fa.format(m=a)}, {fb.format(m=b)})")
                 differs.add(f"{fa.format(m=a)} != {fb.format(m=b)}")
     base_ok = got[0] == "filter" and got[1] == common
+    if base_ok:
+        # a candidate _k is a key of both views: every spelling of `the value of _k in <view>` (subscript, .get with or
+        # without a fallback, `<view>[_k] if _k in <view> else ..`) denotes the same value there
+        facts = {(PRE_P, "_k"), (POST_P, "_k")}
+        got = ("filter", got[1], frozenset(ast.unparse(lookup_canon(ast.parse(c, mode="eval").body, facts)) for c in got[2]))
     R.check(base_ok, r_d, CREL, CQ, "updated_keys range over keys(post) & keys(pre)", f"updated candidates are not exactly the common keys: {kshow(got[1] if got[0] == 'filter' else got)[:120]}", comp.lineno)
     R.check(got[0] == "filter" and len(got[2]) == 1 and next(iter(got[2])) in differs, r_d, CREL, CQ, "updated_keys = common keys whose value differs", f"updated keys are not the common keys whose value changed: {kshow(got)[:140]}", comp.lineno)
     R.check(is_sorted_expr(ck) and is_sorted_expr(uk), r_d, CREL, CQ, "created_keys / updated_keys are sorted lists", "the returned key lists are not sorted", comp.lineno)
@@ -2046,7 +2410,7 @@ def run(repo: Repo, R: Report) -> None:
     R.check(bool(csp) and f"sha256_bytes(canonical_json_bytes({csp[0]}))" in digest_text(cs), r_dig, A.rel("context_summary"), A.qn("context_summary"), "sha256 = sha256_bytes(canonical_json_bytes(context_view))", "context digest is not the hash of the canonical JSON of the snapshot", cs.lineno)
     cj = repo.func(UTILS, "canonical_json_bytes")
     dumps = [c for c in calls_in(cj) if call_name(c) == "json.dumps"]
-    ok = bool(dumps) and isinstance(kwarg(dumps[0], "sort_keys"), ast.Constant) and kwarg(dumps[0], "sort_keys").value is True
+    ok = bool(dumps) and all(is_const(expand(cj, call_kwarg(cj, c, "sort_keys")), True) for c in dumps)  # written at the call or in an options mapping spread into it
     R.check(ok, r_dig, UTILS, "canonical_json_bytes", "json.dumps(..., sort_keys=True)", "canonical JSON depends on mapping order: equal content gives different digests", cj.lineno)
     r_enc = R.rule("C07-D5-one-encoding", "serialize() (whose bytes are hashed into the data digests and compared by _stable_equal to decide updated_keys) gives different values different bytes: values of JSON-native types (str, numbers, bool, None, list, dict) are encoded by canonical_json_bytes only; the other producers are the own bytes of a bytes-like object and the repr last resort inside an exception handler", 4)
     r_whole = R.rule("C07-D5-whole-content", "the bytes that are hashed into the data / context digests and compared by _stable_equal are a rendering of the whole value: on the way from the value to the bytes (through serialize(), the helpers it returns from, the renderers they call and the json `default` hook) nothing cuts a rendering by position, abbreviates it, formats it with a precision or lets a summary (len / id / hash / type) stand in for it; the hash function consumes all of those bytes", 5)
@@ -2129,10 +2493,10 @@ def run(repo: Repo, R: Report) -> None:
     for c in A.record_calls:
         ok = timing_entry_ok(c, "wall_ms", "end_timing", 1, True) and timing_entry_ok(c, "cpu_ms", "end_timing", 2, True)
         R.check(ok, r_misc, ORCH, EXECUTE, f"SER ({status_of(c)}): timing.wall_ms / cpu_ms from _end_timing()", "SER durations do not come from _end_timing()", c.lineno)
-    node_kw = {p for c in A.record_calls for p, v in bind_args(c, mk).items() if dotted_name(v) == NODE}
+    node_kw = {p for c in A.record_calls for p, v in bind_args(c, mk, ex).items() if dotted_name(v) == NODE}
     NK = next(iter(node_kw)) if len(node_kw) == 1 else None
     ref = dict_entry(proc, "ref")
-    tags = expand(mk, kwarg(ser_calls[0], "tags")) if ser_calls else None
+    tags = expand(mk, call_kwarg(mk, ser_calls[0], "tags")) if ser_calls else None
 
     def names_class(e: Optional[ast.AST]) -> bool:
         if e is None or NK is None:
@@ -2147,7 +2511,7 @@ def run(repo: Repo, R: Report) -> None:
     R.check(NODE in {x.id for x in ast.walk(loop.target) if isinstance(x, ast.Name)}, r_misc, ORCH, EXECUTE, "the node that runs is the loop's current node", "the node callable does not run the loop's current node", loop.lineno)
     for c in A.record_calls:
         if True:
-            R.check(NK is not None and dotted_name(bind_args(c, mk).get(NK)) == NODE, r_misc, ORCH, EXECUTE, f"_make_ser_record(node=<the node that ran>) ({status_of(c)})", "the SER is built for a different node object than the one that ran", c.lineno)
+            R.check(NK is not None and dotted_name(bind_args(c, mk, ex).get(NK)) == NODE, r_misc, ORCH, EXECUTE, f"_make_ser_record(node=<the node that ran>) ({status_of(c)})", "the SER is built for a different node object than the one that ran", c.lineno)
 
     # ------------------------------------------------------------------ D8 node-local facts
     r_loc = R.rule("C07-D8-node-local-facts", "what a SER says about a node is computed from that node, its configuration, data and pre/post context: the per-node path of execute() (loop body and everything it calls in the execution / trace packages) reads no instance attribute that the same path writes (memo, counter, remembered view) - such a cell carries an earlier node's or run's answer into a later record", 12)
